@@ -54,16 +54,15 @@ func (k msgServer) Store(goCtx context.Context, msg *types.MsgStore) (*types.Msg
 		return nil, sdkerrors.Wrapf(types.ErrInvalidCid, "invalid cid: %s", proposal.Cid)
 	}
 
-	if !strings.Contains(proposal.CommitId, proposal.DataId) {
-		// validate the permission for all update operations
-		meta, isFound := k.Keeper.model.GetMetadata(ctx, proposal.DataId)
-		if !isFound {
-			return nil, status.Errorf(codes.NotFound, "metadata :%s not found", proposal.DataId)
-		}
-
-		isValid := meta.Owner == sigDid
+	// validate the permission for all update operations
+	existing, isFound := k.Keeper.model.GetMetadata(ctx, proposal.DataId)
+	if !isFound && !strings.Contains(proposal.CommitId, proposal.DataId) {
+		return nil, status.Errorf(codes.NotFound, "metadata :%s not found", proposal.DataId)
+	}
+	if isFound {
+		isValid := existing.Owner == sigDid
 		if !isValid {
-			for _, readwriteDid := range meta.ReadwriteDids {
+			for _, readwriteDid := range existing.ReadwriteDids {
 				if readwriteDid == sigDid {
 					isValid = true
 					break
